@@ -275,6 +275,18 @@ UnifiedDocF(ms, h, out) ==
 DoUnified(ms, a) ==
   IF ms.con[a.h].kind = "doc" THEN UnifiedDocF(ms, a.h, a.out) ELSE UnifiedBundleF(ms, a.h, a.out)
 
+(* record.copy(): a new record object of the same bundle that is NOT inserted in it. *)
+(* It is modelled as the only record of a pseudo container `out' of kind "loose"     *)
+(* that uses the bundle's manager.                                                   *)
+DoCopyRec(ms, a) ==
+  LET rec == RecAt(ms, a.r)
+      m   == ms.con[a.r.c].mgr
+      r   == AddAttrsF(ms.mgr, m, [rec EXCEPT !.attrs = {}], AttrPairs(rec))
+  IN IF r.exc # "none" THEN Raise([ms EXCEPT !.mgr = r.M], r.exc)
+     ELSE Ok([ms EXCEPT !.mgr = r.M,
+                        !.con = (a.out :> [ConInit("loose", m, NoQN, a.r.c) EXCEPT !.recs = <<r.rec>>]) @@ @],
+             NoQN)
+
 (* get_record(identifier): resolves the identifier (a QualifiedName argument may *)
 (* register a namespace) and returns the indexed records, as indices             *)
 DoGetRecord(ms, a) ==
